@@ -57,7 +57,7 @@ def run(tier):
     # a wrapped command that complains a lot (4 000 lines, far more than a pipe holds, on stderr before it writes to stdout): the
     # scenarios in which delta runs a command and the consumer stays are run a second time with such a command
     n_plain = len(scenarios)
-    scenarios = scenarios + [sc for sc in scenarios if sc["mode"] == "wrap" and sc["quit"] == 0]
+    scenarios = scenarios + [sc for sc in scenarios if sc["mode"] == "wrap" and sc["quit"] == 0 and sc["wf"] == "none"]
     log(f"[{PID}] fault space enumerated by TLC: {n_plain} scenarios ({mc.distinct} states), {len(scenarios) - n_plain} of them repeated with a noisy command")
     work = os.path.join(core.scratch(), "c18")
     os.makedirs(work, exist_ok=True)
@@ -73,6 +73,9 @@ def run(tier):
     open(fa, "w").write("".join(f"line {i}\n" for i in range(200)))
     open(fb, "w").write("".join(f"line {i}{'!' if i % 7 == 0 else ''}\n" for i in range(200)))
     open(fc, "w").write(open(fa).read())
+    fabig, fbbig = (os.path.join(work, n) for n in ("abig.txt", "bbig.txt"))
+    open(fabig, "w").write("".join(f"line {i}\n" for i in range(9000)))
+    open(fbbig, "w").write("".join(f"line {i}{'!' if i % 3 == 0 else ''}\n" for i in range(9000)))
     grep_out = os.path.join(work, "grep.txt")
     open(grep_out, "w").write("".join(f"src/a.rs:{i}:let foo{i} = {i};\n" for i in range(1, 200)))
     big_grep_out = os.path.join(work, "grep-big.txt")
@@ -99,7 +102,7 @@ def run(tier):
             if sc["status"] == 0:
                 args += [fa, fc]
             elif sc["status"] == 1:
-                args += [fa, fb]
+                args += [fabig, fbbig] if sc["big"] else [fa, fb]
             else:
                 args += [fa, os.path.join(work, "does-not-exist")]
         else:
@@ -129,6 +132,18 @@ def run(tier):
             if sc["quit"] > 0:
                 env["LD_PRELOAD"] = shim
                 env["WRITESHIM_FAIL_AT"] = str(sc["quit"])
+        if sc.get("wf", "none") != "none":
+            # a disturbed write call in delta itself (not in the programs it starts): towards stdout, or towards the pager's pipe
+            env["LD_PRELOAD"] = shim
+            env["WRITESHIM_COMM"] = "delta"
+            if sc["out"] == "pager":
+                env["WRITESHIM_FD"] = "-1"
+            if sc["wf"] == "eintr":
+                env["WRITESHIM_EINTR_AT"] = str(sc["wat"])
+            else:
+                env["WRITESHIM_SHORT_AT"] = str(sc["wat"])
+                if sc["wf"] == "shortall":
+                    env["WRITESHIM_SHORT_EVERY"] = "1"
         # argument position: options must precede the wrapped command
         if sc["mode"] == "wrap":
             i = args.index("git")
@@ -158,7 +173,7 @@ def run(tier):
         if os.path.exists(logf):
             os.unlink(logf)
         # reference: complete output of the same command without any fault, to stdout
-        ref_sc = dict(sc, out="stdout", quit=0)
+        ref_sc = dict(sc, out="stdout", quit=0, wf="none", wat=0)
         rargs, rstdin, renv = command(ref_sc, idx)
         wlog = os.path.join(work, f"writes{idx}.log")
         renv.update({"LD_PRELOAD": shim, "WRITESHIM_LOG": wlog})
@@ -203,7 +218,7 @@ def run(tier):
     core.write_evidence(PID, tier, "fault_enumeration", {
         "evaluations": len(events), "distinct_nontrivial": len({json.dumps(e["sc"], sort_keys=True) for e in events}),
         "rule": "TLC enumerates the scenario space of MC_Pager (stdin mode: the consumer of stdout goes away at each of the first 40 "
-                "write calls; pager mode: every subset of the four pager sources x three PAGER values x quit after 0/1/10/5000 "
+                "write calls, or stays while the n-th write call is short / all later ones are short / it fails with EINTR (stdin, two-file and wrapped-command mode, to stdout and to a pager, output below and above a pipe buffer); pager mode: every subset of the four pager sources x three PAGER values x quit after 0/1/10/5000 "
                 "bytes; two-file and wrapped-command mode: differ/child status 0, 1, 2, 129 x consumer stays / quits; a pager that stops reading but stays "
                 "alive, with output above and below the pipe-buffer size; the same path given twice and a differ option that is rejected); each is forced "
                 "on the real binary (LD_PRELOAD write shim, stub pagers and stub git) and judged by TLC against Pager",
